@@ -508,6 +508,10 @@ fn zoo(thorough: bool) -> Vec<S> {
     z.push(m(vec![(fbits(-0.0), i(1))]));
     z.push(m(vec![(fbits(0.0), i(1))]));
     z.push(m(vec![(S::F(0x7ff8_0000_0000_0000), i(1))]));
+    // keys that are Equal under Ord (one entry, first spelling of the key, last value) / only under ==
+    z.push(m(vec![(S::F(0x7ff8_0000_0000_0000), i(1)), (S::F(0x7ff8_0000_0000_0000), i(2))]));
+    z.push(m(vec![(i(1), i(1)), (fbits(1.0), i(2))]));
+    z.push(m(vec![(fbits(1.0), i(1)), (S::U64(1), i(2))]));
     z
 }
 
@@ -548,6 +552,7 @@ fn run_val(a: &Value) -> String {
     .unwrap_or_else(|_| "panic".into())
 }
 
+#[allow(dead_code)]
 fn run_pair(a: &Value, b: &Value) -> String {
     run_pair_s(None, a, b)
 }
@@ -1370,10 +1375,9 @@ fn rand_scalar(rng: &mut Rng) -> S {
 }
 
 fn rand_key(rng: &mut Rng) -> S {
-    // map keys: no bools (a bool and the number it equals would be merged by `from_pairs`: known finding)
     loop {
         let k = rand_scalar(rng);
-        if !matches!(k, S::Bool(_) | S::Plain(_)) {
+        if !matches!(k, S::Plain(_)) {
             return k;
         }
     }
